@@ -51,6 +51,15 @@ def inputs():
     return out
 
 
+INDEPENDENT = set()
+
+
+def _uses_args(g):
+    """does the lambda read its parameters x / y at all?"""
+    import dis
+    return any(ins.opname in ("LOAD_FAST", "LOAD_FAST_CHECK", "LOAD_DEREF", "LOAD_FAST_AND_CLEAR") and ins.argval in ("x", "y") for ins in dis.get_instructions(g))
+
+
 def catalogue():
     """(label, kind, g(x, y)) ; kind in value | ordering | text ; x, y built polynomials"""
     q = lambda n: numpoly.symbols(n)  # noqa: E731
@@ -58,6 +67,9 @@ def catalogue():
 
     def add(label, g, kind="value", retain_default_only=False):
         c.append((label, kind, g, retain_default_only))
+        # operations that do not look at their operands are run with the first operand pair only
+        if g.__code__.co_names and not ({"x", "y"} & set(g.__code__.co_varnames[:2]) and _uses_args(g)):
+            INDEPENDENT.add(label)
     add("x+y", lambda x, y: x + y), add("x-y", lambda x, y: x - y), add("x*y", lambda x, y: x * y), add("-x", lambda x, y: -x)
     add("x**2", lambda x, y: x ** 2), add("x-x", lambda x, y: x - x), add("x*0", lambda x, y: x * 0), add("(x+y)-y", lambda x, y: (x + y) - y)
     add("x+1.5", lambda x, y: x + 1.5), add("2*x", lambda x, y: 2 * x), add("x**0", lambda x, y: x ** 0)
@@ -147,6 +159,8 @@ def catalogue():
     return c
 
 
+# evaluation costs 10-100 ms per call: like division it runs under the 2**5 settings of the retain, sort and display_graded options
+SLOW_CALLS = {"call staged", "call poly", "call swap", "call kw", "call partial", "call full"}
 DIVISION = {"x / 2", "poly_divmod", "poly_divmod by q_first", "x // q_last", "x % q"}
 
 
@@ -184,9 +198,11 @@ def cases(tier, seed):
     out = []
     ncat = len(catalogue())
     for (i, j) in PAIRS:
-        for c0 in range(0, ncat, 4):
-            out.append({"k": "ops", "x": i, "y": j, "c0": c0, "c1": min(ncat, c0 + 4), "tier": tier})
-    out.sort(key=lambda c: -c["c0"])   # the (slow) division operations are at the end of the catalogue: run them first
+        for c0 in range(0, ncat, 2):
+            out.append({"k": "ops", "x": i, "y": j, "c0": c0, "c1": min(ncat, c0 + 2), "tier": tier})
+    labels = [c_[0] for c_ in catalogue()]
+    heavy = {"hessian", "gradient", "to_sympy", "x**2", "x*y"} | DIVISION | SLOW_CALLS
+    out.sort(key=lambda c: -sum(3 if l_ in heavy else 1 for l_ in labels[c["c0"]:c["c1"]]))   # the slow operations first
     return out
 
 
@@ -195,6 +211,10 @@ def run_case(case, R):
     (lx, spx), (ly, spy) = ins[case["x"]], ins[case["y"]]
     cat = catalogue()[case["c0"]:case["c1"]]
     cfgs = configs(case["tier"])
+    pi = PAIRS.index((case["x"], case["y"])) if (case["x"], case["y"]) in PAIRS else 0
+    if case["tier"] == "quick" and pi >= 3:
+        # all 256 settings for the first three operand pairs, alternating halves of them for the other five
+        cfgs = cfgs[pi % 2::2]
     defaults = {k: tree.DEFAULTS[k] for k in BOOL_OPTS}
     R.state(("ops", lx, ly, case["c0"]))
     # reference: the shipped defaults
@@ -213,7 +233,9 @@ def run_case(case, R):
             for label, kind, g, retain_default_only in cat:
                 if label not in refs:
                     continue
-                if label in DIVISION and any(cfg[k] != defaults[k] for k in ("display_reverse", "display_inverse", "force_number_suffix")):
+                if label in INDEPENDENT and (case["x"], case["y"]) != PAIRS[0]:
+                    continue
+                if (label in DIVISION or label in SLOW_CALLS) and any(cfg[k] != defaults[k] for k in ("display_reverse", "display_inverse", "force_number_suffix")):
                     continue   # division is slow: the 2**5 settings of the retain, sort and display_graded options only
                 R.tr()
                 tags = tags0 + ["kind=" + kind]
